@@ -69,6 +69,10 @@ theorem cfgOf_wanted {g : DGraph} {cf : Conf} (hwf : g.WF) (a : Nat) (e : Nat ×
 
 /-! ## the invariant -/
 
+/-- has the dependency fed by output `k` of `a` towards a node on rank `r` been released by the collective? -/
+def got (g : DGraph) (a : Nat) (log : List Msg) (r k : Nat) : Bool :=
+  if g.isCtl a k then (dsts log).contains r else (deliveriesOf log).contains (r, k)
+
 structure DInv (g : DGraph) (cf : Conf) (F : Nat → List (Option Nat) → Nat) (again : List Nat) (s : DSt) : Prop where
   gen   : ∃ ts, s.core = Dataflow.run g.graph F again ts
   cnt   : ∀ a b : Nat, s.core.status[a]? ≠ some Status.ended → s.core.pending.count (a, b) = g.graph.E.count (a, b)
@@ -82,7 +86,7 @@ structure DInv (g : DGraph) (cf : Conf) (F : Nat → List (Option Nat) → Nat) 
   avail : ∀ e ∈ g.E, (e.1, e.2.1) ∉ s.core.pending → (look s.store (cf.place e.2.1, e.1)).isSome
   owed  : ∀ a st, look s.coll a = some st → ∀ b, cf.place b ≠ cf.place a →
             s.core.pending.count (a, b) =
-              g.E.countP (fun e => e.1 == a && e.2.1 == b && !(deliveriesOf st.log).contains (cf.place b, e.2.2))
+              g.E.countP (fun e => e.1 == a && e.2.1 == b && !got g a st.log (cf.place b) e.2.2)
 
 section
 variable {g : DGraph} {cf : Conf} {F : Nat → List (Option Nat) → Nat} {again : List Nat}
@@ -277,7 +281,7 @@ theorem dinv_finish (hwf : g.WF) {s : DSt} (h : DInv g cf F again s) (i : Nat) (
       rw [h1, count_graph_E]
       apply List.countP_congr
       intro e' _
-      simp [Cfg.init, deliveriesOf]
+      simp [Cfg.init, deliveriesOf, got, dsts]
     · exact h.owed a st hl b hb
 
 end
